@@ -242,6 +242,24 @@ func (e *Engine) findGlobal(from *types.Package, pkgName, name string) *ssa.Glob
 func (env *Env) evalIdent(name string) CV {
 	r := env.r
 	tb := env.tb()
+	// a source variable that was renamed (and nothing else changed in the function's declarations): spec/locals.json
+	if fn := r.fn; fn != nil && r.e.aliases != nil {
+		var key string
+		if o, ok := fn.Object().(*types.Func); ok && o != nil {
+			key = o.FullName()
+		} else if fn.Origin() != nil {
+			if o, ok := fn.Origin().Object().(*types.Func); ok && o != nil {
+				key = o.FullName()
+			}
+		}
+		if m := r.e.aliases[key]; m != nil {
+			if a, ok := m[name]; ok {
+				if _, bound := env.lookup(name); !bound && r.names[name] == nil && r.loopPhis[name] == nil {
+					name = a
+				}
+			}
+		}
+	}
 	if env.blockPhis != nil {
 		if phi, ok := env.blockPhis[name]; ok {
 			return CV{V: r.val(phi), T: phi.Type()}
